@@ -22,6 +22,7 @@ pub fn families_for(prop: &str) -> Vec<Family> {
         ],
         "C12" => vec![Family { name: "c12", cfg: c12_cfg, run: c12_run }],
         "C09" => vec![Family { name: "c09", cfg: c09_cfg, run: c09_run }],
+        "C05" => vec![Family { name: "c05", cfg: c05_cfg, run: c05_run }],
         "C03" => vec![
             Family { name: "c03_exh", cfg: c03_exh_cfg, run: c03_exh_run },
             Family { name: "c03_rand", cfg: c03_rand_cfg, run: c03_rand_run },
@@ -54,6 +55,7 @@ fn mix_cfg(rng: &mut Rng) -> CaseCfg {
         repair: *rng.pick(&[1.0, 0.5]),
         rng_seed: rng.next(),
         desc: rng.chance(1, 4),
+        ..CaseCfg::default()
     }
 }
 
@@ -1205,4 +1207,72 @@ fn c09_run(case: &mut Case, rng: &mut Rng) {
     }
     case.ctl("step");
     case.ctl("mark drained");
+}
+
+// ---------------------------------------------------------------------------------------------
+// C05: virtual clocks
+
+fn c05_cfg(rng: &mut Rng) -> CaseCfg {
+    // whole-millisecond ticks mostly; sub-millisecond / fractional ones exercise the known finding
+    let tick_us = *rng.pick(&[1000u64, 3000, 5000, 7000, 10000, 250000, 1000, 2000, 500, 1500, 2500]);
+    CaseCfg {
+        tick_us,
+        tick_ms: (tick_us / 1000).max(1),
+        hosts: rng.range(1, 3) as usize,
+        late: rng.below(2) as usize,
+        rng_seed: rng.next(),
+        ..CaseCfg::default()
+    }
+}
+
+fn c05_run(case: &mut Case, rng: &mut Rng) {
+    let steps = rng.range(5, 40);
+    let late_at = rng.below(steps);
+    for k in 0..steps {
+        if case.cfg.late > 0 && k == late_at {
+            case.ctl("reglate");
+        }
+        let n = case.running.len();
+        for h in 0..n {
+            if !case.running[h] {
+                continue;
+            }
+            match rng.below(6) {
+                0 | 1 => case.ctl(&format!("q h{h} clock")),
+                2 | 3 => {
+                    case.ctl(&format!("q h{h} clock"));
+                    case.ctl(&format!("q h{h} sleep {}", *rng.pick(&[1u64, 1, 2, 3, 5, 8, 20])));
+                    case.ctl(&format!("q h{h} clock"));
+                }
+                _ => {}
+            }
+        }
+        if rng.chance(1, 10) {
+            let h = rng.below(n as u64) as usize;
+            if case.running[h] {
+                case.ctl(&format!("crash h{h}"));
+            } else {
+                case.ctl(&format!("bounce h{h}"));
+            }
+        }
+        if rng.chance(1, 15) {
+            let h = rng.below(n as u64) as usize;
+            case.ctl(&format!("bounce h{h}"));
+        }
+        case.ctl("step");
+        if rng.chance(1, 4) {
+            case.ctl("simclock");
+        }
+    }
+    // let every sleeper wake up and report
+    for _ in 0..6 {
+        let n = case.running.len();
+        for h in 0..n {
+            if case.running[h] {
+                case.ctl(&format!("q h{h} clock"));
+            }
+        }
+        case.ctl("step");
+    }
+    case.ctl("simclock");
 }
